@@ -162,8 +162,11 @@ func (e *EncryptedISO) Read(b []byte) (int, error) {
 	}
 
 	e.offset += sizeBytes(read)
+	if err = e.decryptData(readStart, b[:read], false); err != nil {
+		return 0, err
+	}
+
 	e.clearRegionsData(readStart, b[:read])
-	e.decryptData(readStart, b[:read], false)
 	return read, nil
 }
 
@@ -174,8 +177,11 @@ func (e *EncryptedISO) ReadAt(b []byte, off int64) (int, error) {
 		return read, err
 	}
 
+	if decErr := e.decryptData(sizeBytes(off), b[:read], true); decErr != nil {
+		return 0, decErr
+	}
+
 	e.clearRegionsData(sizeBytes(off), b[:read])
-	e.decryptData(sizeBytes(off), b[:read], true)
 	return read, err
 }
 
@@ -199,20 +205,45 @@ func (e *EncryptedISO) clearRegionsData(start sizeBytes, data []byte) {
 	}
 }
 
-func (e *EncryptedISO) decryptData(start sizeBytes, data []byte, cloneCBC bool) {
+// decryptData decrypts in place the parts of data (read at position start) that belong to encrypted sectors.
+// Sectors are encrypted as a whole, so a sector covered only partially by data is read completely
+// from underlying file, decrypted separately and then requested part of it is copied to data.
+func (e *EncryptedISO) decryptData(start sizeBytes, data []byte, cloneCBC bool) error {
+	var partialSector []byte
+
 	end := start + sizeBytes(len(data))
 	for _, region := range e.encryptedRegions {
-		if region.end <= start.sectors() || region.start > end.sectors() { // not covered
+		if region.end <= start.floorSectors() || region.start >= end.sectors() { // not covered
 			continue
 		}
 
 		startSector := max(region.start, start.floorSectors())
 		endSector := min(region.end, end.sectors())
 		for i := startSector; i < endSector; i++ {
-			encryptedSpan := data[i.bytes()-start : i.next().bytes()-start]
-			e.setIVForSector(i, cloneCBC).CryptBlocks(encryptedSpan, encryptedSpan)
+			dec := e.setIVForSector(i, cloneCBC)
+
+			if i.bytes() >= start && i.next().bytes() <= end {
+				encryptedSpan := data[i.bytes()-start : i.next().bytes()-start]
+				dec.CryptBlocks(encryptedSpan, encryptedSpan)
+				continue
+			}
+
+			if partialSector == nil {
+				partialSector = make([]byte, sectorSize)
+			}
+
+			if _, err := e.privateFile.ReadAt(partialSector, int64(i.bytes())); err != nil {
+				return fmt.Errorf("read of partially requested sector %d failed: %w", i, err)
+			}
+
+			dec.CryptBlocks(partialSector, partialSector)
+
+			from, to := max(i.bytes(), start), min(i.next().bytes(), end)
+			copy(data[from-start:to-start], partialSector[from-i.bytes():to-i.bytes()])
 		}
 	}
+
+	return nil
 }
 
 func (*EncryptedISO) Write([]byte) (int, error) { return 0, syscall.EPERM }
